@@ -260,6 +260,7 @@ func (c *FnCtx) heapSet(st *State, name string, t Term) {
 func (c *FnCtx) readLeaf(st *State, loc *Loc, lf Leaf) Term {
 	name := loc.Prefix + lf.Suffix
 	h := c.heapGet(st, name, c.heapSort(lf.Sort, loc.Idx2 != nil))
+	c.lastReadInitial = strings.HasPrefix(h.S, "H0$") || strings.HasPrefix(h.S, "|H0$")
 	if loc.Idx2 != nil {
 		return Select(Select(h, loc.Idx, SArr(SInt, lf.Sort)), *loc.Idx2, lf.Sort)
 	}
@@ -340,9 +341,13 @@ func (c *FnCtx) loadLoc(st *State, loc *Loc) SV {
 		v := c.readLeaf(st, loc, Leaf{"", s})
 		switch t.Underlying().(type) {
 		case *types.Pointer, *types.Map, *types.Chan:
-			// everything reachable is allocated (or nil)
+			// everything reachable is allocated (or nil); what the entry heap holds was
+			// allocated before the function started
 			if c.vc.quant == 0 {
 				c.assumeAllocated(st, v)
+				if c.lastReadInitial {
+					c.vc.Assert(Or(Eq(v, IntLit(0)), And(App(SBool, "<", IntLit(0), v), App(SBool, "<", v, c.allocInit()))))
+				}
 			}
 		}
 		if p, ok := t.Underlying().(*types.Pointer); ok {
@@ -358,9 +363,14 @@ func (c *FnCtx) loadLoc(st *State, loc *Loc) SV {
 	switch u := t.Underlying().(type) {
 	case *types.Slice:
 		ls := c.leaves(t)
-		sl := Sl{c.readLeaf(st, loc, ls[0]), c.readLeaf(st, loc, ls[1]), c.readLeaf(st, loc, ls[2]), c.readLeaf(st, loc, ls[3])}
+		arrT := c.readLeaf(st, loc, ls[0])
+		arrInitial := c.lastReadInitial
+		sl := Sl{arrT, c.readLeaf(st, loc, ls[1]), c.readLeaf(st, loc, ls[2]), c.readLeaf(st, loc, ls[3])}
 		if c.vc.quant == 0 {
 			c.assumeAllocated(st, sl.Arr)
+			if arrInitial {
+				c.vc.Assert(Or(Eq(sl.Arr, IntLit(0)), And(App(SBool, "<", IntLit(0), sl.Arr), App(SBool, "<", sl.Arr, c.allocInit()))))
+			}
 			c.vc.Assert(And(App(SBool, "<=", IntLit(0), sl.Off), App(SBool, "<=", IntLit(0), sl.Len), App(SBool, "<=", sl.Len, sl.Cap),
 				Implies(Eq(sl.Arr, IntLit(0)), And(Eq(sl.Len, IntLit(0)), Eq(sl.Cap, IntLit(0))))))
 		}
